@@ -26,7 +26,8 @@ B2 = (0.0, 1.0)
 # near-ties: adjacent floats and 1e-12-relative neighbours at three magnitudes (Pareto comparator only; for the epsilon
 # comparator such pairs are inside "rounding error", where the statement promises nothing)
 import math as _m
-NEAR = (1.0, _m.nextafter(1.0, 2.0), 1.0 + 1e-12, 1000.0, _m.nextafter(1000.0, 2000.0), -1e-3, -1e-3 * (1 + 1e-12))
+NEAR = (1.0, _m.nextafter(1.0, 2.0), 1.0 + 1e-12, 1000.0, _m.nextafter(1000.0, 2000.0), -1e-3, -1e-3 * (1 + 1e-12),
+        0.0, 5e-324, 1e-17, -1e-17, 0.1, _m.nextafter(0.1, 1.0))
 MARK = (False, True)
 EPS_LISTS = ([0.1], [0.1, 0.1], [0.01, 5.0], 0.25, [1e-6], [1e3], [0.3, 0.7, 0.9])
 
@@ -204,7 +205,42 @@ def _shard(shard, col: Collector):
                 col.nontrivial(("edge", a, b))
                 if pa.compare(list(a), list(b)) != ref_dominance(a, b):
                     col.violation("C01:pareto:numeric-edge", "misc", "compare(%r, %r) = %r, definition %r" % (a, b, pa.compare(list(a), list(b)), ref_dominance(a, b)), {"p": a, "q": b})
-        col.sample({"kind": "argument immutability / independent comparator objects / numeric types and edge values"}, 1)
+        # mixed magnitudes: an improvement in one objective must not be absorbed by a huge value in another
+        MIX = (1e20, -1e20, 2.0 ** 53, 0.0, 0.25, 0.75, 1.0)
+        mv = [tuple(v) + (f,) for v in itertools.product(MIX, repeat=2) for f in MARK] + \
+             [tuple(v) + (True,) for v in itertools.product((1e20, 2.0 ** 53, 0.25, 0.75), repeat=3)]
+        for p in mv:
+            for q in mv:
+                if len(p) != len(q):
+                    continue
+                col.case()
+                if p != q:
+                    col.nontrivial(("mix", p, q))
+                got = pa.compare(list(p), list(q))
+                if got != ref_dominance(p, q):
+                    col.violation("C01:pareto:verdict:mixed-magnitudes", "misc", "compare(%r, %r) = %r, definition %r" % (p, q, got, ref_dominance(p, q)), {"p": p, "q": q})
+        # one list object, modified in place between two calls (the worst-case evaluator overwrites and inserts entries of
+        # costs_signed): the second verdict must be about the new contents
+        for spec_c in (pa, EpsilonDominance([0.1, 0.1]), EpsilonDominance(0.25)):
+            for q in vectors(V3, 2):
+                for first, second in (((0.0, 0.0, True), (2.0, 2.0, True)), ((2.0, 0.0, True), (0.0, 2.0, True)), ((1.0, 1.0, False), (1.0, 1.0, True))):
+                    col.case()
+                    lp = list(first)
+                    spec_c.compare(lp, list(q))
+                    lp[0], lp[1], lp[2] = second
+                    got = spec_c.compare(lp, list(q))
+                    lq = list(q)
+                    spec_c.compare(lq, list(first))
+                    want = ref_dominance(second, q)
+                    if tuple(second[:-1]) == tuple(q[:-1]) and second[-1] == q[-1] and spec_c is not pa:
+                        ok = got in (1, 2)
+                    else:
+                        ok = got == want
+                    if not ok:
+                        col.violation("C01:%s:stale-after-in-place-change" % type(spec_c).__name__, "misc",
+                                      "a cost list was changed in place from %r to %r between two calls; compare(list, %r) = %r, definition %r" % (first, second, q, got, want),
+                                      {"p": second, "q": q})
+        col.sample({"kind": "argument immutability / independent comparator objects / numeric types and edge values / in-place changes"}, 1)
     elif kind == "laws":
         # Numeric markers (the comparator's documented reading: 0 = feasible, otherwise a degree of violation), both signs.
         # No reference verdict is demanded here - only the laws the statement names for ALL marker combinations:
